@@ -352,7 +352,7 @@ Case genCase(Choices& c, const std::string& sub) {
 }
 
 // ---- execution ---------------------------------------------------------------------
-struct RunOut { std::vector<std::string> proj; std::vector<std::string> raw; bool inconclusive = false; std::string err; long long nodes = 0; int tbSeen = 0; };
+struct RunOut { std::vector<std::string> proj; std::vector<std::string> raw; bool inconclusive = false; std::string err, where; long long nodes = 0; int tbSeen = 0; };
 
 std::string posCmd(const PosRef& p) {
     std::string s = "position fen " + p.fen;
@@ -382,7 +382,7 @@ RunOut runProcess(const Case& k, bool withHistory, const std::string& tag) {
     if (!e.start(gExe, {"TEXEL_VERIF_NET=" + net}, gWork + "/engine-" + tag + ".err")) { out.err = "spawn failed"; return out; }
     auto died = [&](const std::string& where) { out.err = "engine died " + where + ": " + e.exitDesc() + " " + e.stderrText(600); };
     e.send("uci");
-    if (e.waitLine("uciok", 60000) < 0) { if (e.tryReap()) died("at start-up"); else out.inconclusive = true; return out; }
+    if (e.waitLine("uciok", 60000) < 0) { if (e.tryReap()) died("at start-up"); else { out.inconclusive = true; out.where = "no uciok within 60 s"; } return out; }
     if (withHistory) {
         int idx = 0;
         for (const Step& s : k.hist) {
@@ -401,25 +401,25 @@ RunOut runProcess(const Case& k, bool withHistory, const std::string& tag) {
             }
             e.scanPos = from;
             if (e.waitPrefix("bestmove", gAnswerMs) < 0) {
-                if (e.tryReap()) died("during prior search " + std::to_string(idx) + " (" + s.go + ")"); else out.inconclusive = true;
+                if (e.tryReap()) died("during prior search " + std::to_string(idx) + " (" + s.go + ")"); else { out.inconclusive = true; out.where = "prior search unanswered: " + s.go.substr(0, s.go.find(' ', 3)) + (s.tb ? " (table root)" : ""); }
                 return out;
             }
         }
         for (auto& r : k.reverts) e.send("setoption name " + r.first + " value " + r.second);
         e.send("setoption name Clear Hash");
         e.send("isready");
-        if (e.waitLine("readyok", gAnswerMs) < 0) { if (e.tryReap()) died("after Clear Hash"); else out.inconclusive = true; return out; }
+        if (e.waitLine("readyok", gAnswerMs) < 0) { if (e.tryReap()) died("after Clear Hash"); else { out.inconclusive = true; out.where = "no readyok after Clear Hash"; } return out; }
     } else if (k.hash != 16) e.send("setoption name Hash value " + std::to_string(k.hash));
     e.send(posCmd(k.probe));
     size_t from = e.log.size();
     e.scanPos = from;
     e.send(k.go);
     int bi = e.waitPrefix("bestmove", gProbeMs);
-    if (bi < 0) { if (e.tryReap()) died("during the probe"); else out.inconclusive = true; return out; }
+    if (bi < 0) { if (e.tryReap()) died("during the probe"); else { out.inconclusive = true; out.where = "probe unanswered"; } return out; }
     for (size_t i = from; i <= (size_t)bi; i++) if (e.log[i].dir == '<') out.raw.push_back(e.log[i].line);
     project(out.raw, out);
     e.send("quit");
-    if (!e.waitExit(30000)) { out.inconclusive = true; return out; }
+    if (!e.waitExit(30000)) { out.inconclusive = true; out.where = "no exit within 30 s of quit"; return out; }
     if (!e.exitedCleanly()) out.err = "engine ended with " + e.exitDesc() + " " + e.stderrText(600);
     else { std::string se = e.stderrText(); if (se.find("Sanitizer") != std::string::npos || se.find("runtime error:") != std::string::npos) out.err = "sanitizer report: " + se.substr(0, 800); }
     return out;
@@ -472,11 +472,12 @@ void classify(const Case& k, vh::Stats& st, const RunOut& fresh) {
 void runAndJudge(const Case& k, vh::Stats& st) {
     st.evaluations++;
     RunOut f1 = runProcess(k, false, "f1");
-    if (f1.inconclusive) { st.inconclusive++; return; }
+    auto inc = [&](const RunOut& o) { st.inconclusive++; st.count("inconclusive: " + o.where); if (getenv("C14_DEBUG")) fprintf(stderr, "INCONCLUSIVE %s\n%s\n", o.where.c_str(), vj::dump(toJson(k)).c_str()); };
+    if (f1.inconclusive) { inc(f1); return; }
     RunOut f2 = runProcess(k, false, "f2");
-    if (f2.inconclusive) { st.inconclusive++; return; }
+    if (f2.inconclusive) { inc(f2); return; }
     RunOut h = runProcess(k, true, "h");
-    if (h.inconclusive) { st.inconclusive++; return; }
+    if (h.inconclusive) { inc(h); return; }
     classify(k, st, f1);
     if (h.tbSeen) st.count("table-install searches that printed a pv before stop", h.tbSeen);
     auto failWith = [&](const std::string& msg) {
